@@ -37,6 +37,8 @@ type Analysis struct {
 	RegistryStartup bool     // no non-init function of the module (outside tests) mutates the checksum registry
 	RegistryMutCall []string // offending call sites otherwise
 	mu              sync.Mutex
+	pinnedOnce      sync.Once
+	pinned          map[string]string // table of the tree -> table of the pinned schema it stands for
 	errGlobals      map[*ssa.Global]bool
 }
 
@@ -87,11 +89,45 @@ func (a *Analysis) engineFor(root *ssa.Function) *Engine {
 
 // registryMiss: path took the not-found arm of a registry lookup with a constant name.
 func (a *Analysis) registryMiss(p *Path) (string, bool) {
-	for _, c := range p.Conds {
+	if n, ok := a.registryMissConds(p.Conds); ok {
+		return n, true
+	}
+	// the alternatives of an inlined accessor that all amount to "not found" (absent, or present but nil)
+	for _, e := range p.Events {
+		if e.Kind != EvAlt || len(e.Iter) == 0 {
+			continue
+		}
+		name, all := "", true
+		for _, arm := range e.Iter {
+			n, ok := a.registryMissConds(arm.Conds)
+			if !ok || (name != "" && n != name) {
+				all = false
+				break
+			}
+			name = n
+		}
+		if all {
+			return name, true
+		}
+	}
+	return "", false
+}
+
+func (a *Analysis) registryMissConds(conds []Cond) (string, bool) {
+	for _, c := range conds {
 		v := c.V
 		if v.Op == "lookupok" && !c.Taken {
 			if k := v.Args[1]; k.IsConst() && k.C != nil && a.isRegistryMap(v.Args[0]) {
 				return strings.Trim(k.C.ExactString(), "\""), true
+			}
+		}
+		// "the service found under a constant name is nil": the start-up registrations store fresh objects
+		if v.Op == "binop" && len(v.Args) == 2 && ((v.Name == "==" && c.Taken) || (v.Name == "!=" && !c.Taken)) {
+			for side := 0; side < 2; side++ {
+				x := stripIface(stripCT(v.Args[side]))
+				if v.Args[1-side].IsNilConst() && x.Op == "lookup" && len(x.Args) == 2 && x.Args[1].IsConst() && x.Args[1].C != nil && a.isRegistryMap(x.Args[0]) {
+					return strings.Trim(x.Args[1].C.ExactString(), "\""), true
+				}
 			}
 		}
 		// a checked assertion on the service found under a constant name fails: like a miss, infeasible under the
@@ -438,6 +474,29 @@ func (a *Analysis) decLayout(ct *CodecType, p *Path) *PathLayout {
 		}
 		return "", -1, nil, false
 	}
+	c.zeroList = func(ev *Event) (string, int, bool) {
+		if !zeroCountArm(&Arm{Conds: p.Conds}, ev) {
+			return "", -1, false
+		}
+		after := false
+		var hit *Event
+		walkEvents(p.Events, func(e *Event, d int) {
+			if e == ev {
+				after = true
+			}
+			if !after || hit != nil || d != 0 || e.Kind != EvStore {
+				return
+			}
+			if _, ok := recvFieldAddr(e.Dst); ok && freshEmptySlice(e.Src) {
+				hit = e
+			}
+		})
+		if hit == nil {
+			return "", -1, false
+		}
+		idx, _ := recvFieldAddr(hit.Dst)
+		return c.fieldName(idx), idx, true
+	}
 	c.tiles = func(ev *Event, n int64) []*FieldLayout {
 		type tile struct {
 			lo int64
@@ -492,6 +551,10 @@ func (a *Analysis) decLayout(ct *CodecType, p *Path) *PathLayout {
 			for _, st := range stores {
 				idx, _ := recvFieldAddr(st.Dst)
 				if stripCT(st.Src).Key() == stripCT(f.RecvVal).Key() || stripIface(st.Src).Key() == stripCT(f.RecvVal).Key() {
+					f.GoField, f.Name = idx, c.fieldName(idx)
+				}
+				// decoded into a part of a scratch record whose content is then published in this field
+				if src := stripCT(st.Src); src != nil && src.Op == "decodedobj" && src.Name == "" && len(f.Ev) > 0 && src.ID == f.Ev[0].ID {
 					f.GoField, f.Name = idx, c.fieldName(idx)
 				}
 			}
@@ -654,4 +717,27 @@ func expandFrameAlt(p *Path, depth int) []*Path {
 		return res
 	}
 	return []*Path{p}
+}
+
+// freshEmptySlice: a newly made, non-nil slice of length zero ([]T{} or make([]T, 0, …)).
+func freshEmptySlice(v *Val) bool {
+	v = stripCT(v)
+	if v == nil {
+		return false
+	}
+	if v.Op == "makeslice" && len(v.Args) > 0 {
+		n, ok := v.Args[0].Int64()
+		return ok && n == 0
+	}
+	if v.Op == "slice" && len(v.Args) > 0 {
+		b := stripCT(v.Args[0])
+		if b.Op == "new" || b.Op == "alloc" {
+			if pt, ok := b.Type.Underlying().(*types.Pointer); ok {
+				if at, ok := pt.Elem().Underlying().(*types.Array); ok {
+					return at.Len() == 0
+				}
+			}
+		}
+	}
+	return false
 }
